@@ -20,7 +20,7 @@ def enc(n):            # generator of INPUTS only; TLC re-derives every word wit
 def run(v, tier):
     quick = tier == 'quick'
     rng = random.Random(pi2v.SEED)
-    maxn = 60000 if quick else 1000000
+    maxn = 60000 if quick else 2000000
     v.assumptions += ['letters are handed to TLC as numbers A=1..Z=26; whitespace splitting of the proof text is the harness\' (trusted)',
                       'target statements have no essential hypotheses (unsupported by the translator) and use the benchmark naming <var>-is-pattern for floating hypotheses',
                       'hash seeds are sampled: 0, 1, 2, 3, VERIF_SEED']
@@ -39,7 +39,7 @@ def run(v, tier):
     # windows around the word-length boundaries 5(5^k - 1) and at random places far beyond maxn (7 to 12 letter words)
     for k in range(1, 12):
         reqs.append({'cmd': 'mmnum', 'words': [enc(n) for n in range(5 * (5 ** k - 1) - 3, 5 * (5 ** k - 1) + 6)], '_base': 5 * (5 ** k - 1) - 4})
-    for _ in range(40 if quick else 400):
+    for _ in range(40 if quick else 2000):
         b = rng.randrange(maxn, 2 * 10 ** 8)
         reqs.append({'cmd': 'mmnum', 'words': [enc(n) for n in range(b + 1, b + 6)], '_base': b})
     import lem
